@@ -40,6 +40,13 @@ def check(ctx):
     ctx.run(c06.r06_10, m)  # a chain must be recognised as one whatever its segments are called (else it is skipped)
     ctx.run(c06.r06_5, m)  # tags a skipped component carries from the input play no role
     ctx.not_decided.append("that the degree census recognises exactly the non-chain components (a graph-theoretic statement about biccs/dfs, see C15)")
+    # the decomposition itself: the structural rules of biccs (edge-stack discipline, cut criterion, low-link updates) are C15's
+    from . import c15 as _c15
+    from . import gfa_common as _gc
+
+    _g = _gc.build(ctx, "R15.5")
+    ctx.run_shared(_c15.r15_5, _g)
+    ctx.run_shared(_c15.r15_6, _g)
     # mechanisms this property rests on (see shared.py): a change there is reported here as well
     from . import shared as _sh
 
